@@ -151,6 +151,8 @@ fn replay(path: &str) -> i32 {
         }
     };
     let ctx = make_ctx(id, Tier::Quick);
+    start_stall_watchdog(id.to_string(), ctx.replay_dir.clone(), matches!(id, "C01" | "C06" | "C14"));
+    set_section(section);
     for sec in &def.sections {
         if sec.name() == section {
             return match sec.replay(&v["input"]) {
